@@ -397,8 +397,8 @@ protected:
 
 	/*! Extract length and message type from a header buffer
 	    \param from source buffer
-	    \param len length to extract to
-	    \param mtype message type to extract to
+	    \param len length to extract to (buffer of MAX_MSGTYPE_FIELD_LEN bytes)
+	    \param mtype message type to extract to (buffer of MAX_MSGTYPE_FIELD_LEN bytes)
 	    \return number of bytes consumed */
 	static unsigned extract_header(const f8String& from, char *len, char *mtype);
 
@@ -888,10 +888,14 @@ public:
 	    \param sz size of string
 	    \param tag tag to extract to
 	    \param val value to extract to
-	    \return number of bytes consumed */
-	static unsigned extract_element(const char *from, const unsigned sz, char *tag, char *val)
+	    \param tag_sz capacity of tag buffer including terminator
+	    \param val_sz capacity of val buffer including terminator
+	    \return number of bytes consumed, 0 if malformed or if tag or value do not fit */
+	static unsigned extract_element(const char *from, const unsigned sz, char *tag, char *val,
+		const unsigned tag_sz=MAX_MSGTYPE_FIELD_LEN, const unsigned val_sz=FIX8_MAX_FLD_LENGTH)
 	{
 		enum { get_tag, get_value } state(get_tag);
+		const char *const tag_end(tag + tag_sz - 1), *const val_end(val + val_sz - 1); // room for the terminators
 
 		for (unsigned ii(0); ii < sz; ++ii)
 		{
@@ -905,7 +909,11 @@ public:
 					state = get_value;
 				}
 				else
+				{
+					if (tag == tag_end)
+						return *val = *tag = 0;
 					*tag++ = from[ii];
+				}
 				break;
 			case get_value:
 				if (from[ii] == default_field_separator)
@@ -913,6 +921,8 @@ public:
 					*val = *tag = 0;
 					return ++ii;
 				}
+				if (val == val_end)
+					return *val = *tag = 0;
 				*val++ = from[ii];
 				break;
 			}
@@ -926,14 +936,19 @@ public:
 	    \param tag tag to extract to
 	    \param val_sz size of value to be extracted, not including field separator
 	    \param val value to extract to
+	    \param tag_sz capacity of tag buffer including terminator
 	    \return number of bytes consumed */
-	static unsigned extract_element_fixed_width(const char *from, const unsigned sz, const unsigned val_sz, char *tag, char *val)
+	static unsigned extract_element_fixed_width(const char *from, const unsigned sz, const unsigned val_sz, char *tag, char *val,
+		const unsigned tag_sz=MAX_MSGTYPE_FIELD_LEN)
 	{
+		const char *const tag_end(tag + tag_sz - 1); // room for the terminator
 		*val = *tag = 0;
 		for (unsigned ii(0); ii < sz; ++ii)
 		{
 			if(isdigit(from[ii]))
 			{
+				if (tag == tag_end)
+					break;
 				*tag++ = from[ii];
 				continue;
 			}
